@@ -80,6 +80,15 @@ type state struct {
 	allocTick int64
 	inBytes   int32 // number of appenders currently inside their page store
 	overlaps  int32
+	tag       string // fault families: names the injected fault; replaces the order tag in violation classes
+}
+
+// sfx is the class suffix of the fault families ("" everywhere else).
+func (s *state) sfx() string {
+	if s.tag != "" {
+		return "/" + s.tag
+	}
+	return ""
 }
 
 func newState(res *caseResult) *state {
@@ -155,7 +164,7 @@ func (s *state) verifyAll(q queue.Queue, phase string, requireAcked bool, prev m
 	for seq := ack + 1; seq <= app; seq++ {
 		data, err := q.Get(seq)
 		if err != nil {
-			s.violate("C05/get-fails-above-ack", "%s: Get(%d) with appended=%d ack=%d: %v", phase, seq, app, ack, err)
+			s.violate("C05/get-fails-above-ack"+s.sfx(), "%s: Get(%d) with appended=%d ack=%d: %v", phase, seq, app, ack, err)
 			continue
 		}
 		cp := append([]byte(nil), data...)
@@ -168,7 +177,7 @@ func (s *state) verifyAll(q queue.Queue, phase string, requireAcked bool, prev m
 			s.mu.Unlock()
 		}
 		if rec == nil {
-			s.violate("C05/unknown-bytes-at-sequence", "%s: sequence %d holds %d bytes that no append wrote (head % x)", phase, seq, len(cp), head(cp))
+			s.violate("C05/unknown-bytes-at-sequence"+s.sfx(), "%s: sequence %d holds %d bytes that no append wrote (head % x)", phase, seq, len(cp), head(cp))
 			continue
 		}
 		if !bytes.Equal(cp, payload(rec.Prod, rec.Ctr, rec.Len)) {
@@ -182,7 +191,7 @@ func (s *state) verifyAll(q queue.Queue, phase string, requireAcked bool, prev m
 			continue
 		}
 		if old, dup := seen[[2]int{prod, ctr}]; dup {
-			s.violate("C05/payload-under-two-sequences", "%s: producer %d counter %d readable under sequences %d and %d", phase, prod, ctr, old, seq)
+			s.violate("C05/payload-under-two-sequences"+s.sfx(), "%s: producer %d counter %d readable under sequences %d and %d", phase, prod, ctr, old, seq)
 		}
 		seen[[2]int{prod, ctr}] = seq
 		if rec.Seq >= 0 && rec.Seq != seq {
@@ -237,6 +246,9 @@ func head(b []byte) []byte {
 // orderTag tells whether publication order differed from allocation order in this history
 // (observed at the page wrapper); it is part of the violation class.
 func (s *state) orderTag() string {
+	if s.tag != "" {
+		return s.tag
+	}
 	if s.reordered() {
 		return "publication-order-differs-from-allocation-order"
 	}
@@ -273,7 +285,7 @@ func (s *state) checkOrder(q queue.Queue, phase string, startSeq int64) {
 	s.mu.Unlock()
 	app := q.AppendedSeq()
 	if want := startSeq + int64(len(recs)); app != want {
-		s.violate("C05/sequences-not-dense", "%s: %d successful appends after sequence %d but appended sequence is %d", phase, len(recs), startSeq, app)
+		s.violate("C05/sequences-not-dense"+s.sfx(), "%s: %d successful appends after sequence %d but appended sequence is %d", phase, len(recs), startSeq, app)
 	}
 	// A returned before B was called => seq(A) < seq(B)
 	byRet := append([]*putRec(nil), recs...)
@@ -323,6 +335,8 @@ func runCase() {
 		caseGCRoll(res, idx, dir, seed, tier)
 	case "backreset":
 		caseBackReset(res, idx, dir, seed, tier)
+	case "putfault":
+		casePutFault(res, idx, dir, seed, tier)
 	}
 	seam.Restore()
 	data, _ := json.Marshal(res)
